@@ -153,6 +153,12 @@ fn defs() -> Vec<Def> {
             v.push(Def { text: format!("f{i}() {{ p {} \"$x\" \\$y; }}", sq(n)), kind: "func" });
         }
     }
+    // arrays with attributes: the listing has to restore the value *and* the attribute
+    v.push(Def { text: "ea=(1 'b c' ''); export ea".into(), kind: "export" });
+    v.push(Def { text: "ra=(x 'y z'); readonly ra".into(), kind: "readonly" });
+    v.push(Def { text: "xa=(); export xa; readonly xa".into(), kind: "export" });
+    v.push(Def { text: "export nv".into(), kind: "export" });
+    v.push(Def { text: "readonly nr".into(), kind: "readonly" });
     for f in [
         "f() { p a; }",
         "f() { if s 0; then p x; elif s 1; then p y; else p z; fi; }",
